@@ -48,13 +48,14 @@ def become_texts():
 _BECOME_CACHE = {}
 
 
-def model_become(user, is_command, transfer):
-    """what Become.v (mirror of exec_module's become branch) says for this passwd database and caller:
-    (path, module creds or None, main creds)"""
-    key = (user, is_command, transfer)
+def model_become(user, is_command, transfer, gbecome=False, guser="root", tbecome=True):
+    """what Become.v (mirror of get_task's parameter resolution and of exec_module's become branch) says for this
+    passwd database and caller: (path, module creds or None, main creds).  user=None: the task has no become_user"""
+    key = (user, is_command, transfer, gbecome, guser, tbecome)
     if key not in _BECOME_CACHE:
         pw = [[hx(u.pw_name), u.pw_uid, u.pw_gid] for u in pwd.getpwall()]
-        o = C.run_oracle([sx(["become", ["passwd"] + pw, ["cur", os.getuid(), os.getgid()], ["task", True, hx(user), bool(is_command), bool(transfer)]])])[0]
+        o = C.run_oracle([sx(["become", ["passwd"] + pw, ["cur", os.getuid(), os.getgid()], ["global", bool(gbecome), hx(guser)],
+                              ["task", bool(tbecome), "none" if user is None else hx(user), bool(is_command), bool(transfer)]])])[0]
         e = parse_sx(o)
         _BECOME_CACHE[key] = (e[0], None if e[1] == "none" else (int(e[1][1]), int(e[1][2])), (int(e[2][1]), int(e[2][2])))
     return _BECOME_CACHE[key]
@@ -282,6 +283,28 @@ def c15(run, replay=None):
         if o["rc"] != 0 or o["stdout"] != want:
             run.violation("become_user %s: expected uid/gid %d/%d inside and %d/%d afterwards, got stdout %r (rc %r)" % (bu, uid, gid, os.getuid(), os.getgid(), o["stdout"], o["rc"]),
                           dict(script=sc, observed=o))
+    # command line x task keywords: --become applies to every task, a task's own become_user wins over -u
+    daemon = None
+    try:
+        daemon = pwd.getpwnam("daemon")
+    except KeyError:
+        pass
+    combos = [([], False, "root"), (["-b"], True, "root")]
+    if daemon:
+        combos += [(["-b", "-u", "daemon"], True, "daemon"), (["-u", "daemon"], False, "daemon")]
+    for gargs, gb, gu in combos:
+        for tb, tu in ((True, "nobody"), (False, "nobody"), (True, None), (False, None)):
+            path, mc, mainc = model_become(tu, True, False, gbecome=gb, guser=gu, tbecome=tb)
+            L = ["#!/usr/bin/env rash", "- command: id -u"] + (["  become: true"] if tb else []) + (["  become_user: %s" % tu] if tu else []) + \
+                ["- command: id -g"] + (["  become: true"] if tb else []) + (["  become_user: %s" % tu] if tu else [])
+            sc = "\n".join(L) + "\n"
+            o = E.run_impls([dict(files={"main.rh": dict(raw=sc)}, world_writable=True, rash_args=gargs)], timeout=15)[0]
+            if mc is None:
+                continue
+            want = "%d\n\n%d\n\n" % mc
+            if o["rc"] != 0 or o["stdout"] != want:
+                run.violation("rash %s with task become=%s become_user=%s: the model of the parameter resolution says uid/gid %r, got stdout %r (rc %r)" %
+                              (" ".join(gargs), tb, tu, mc, o["stdout"], o["rc"]), dict(script=sc, rash_args=gargs, observed=o))
     # K17: a failing become task inside an include that has ignore_errors
     inc = "#!/usr/bin/env rash\n- command: \"false\"\n  become: true\n  become_user: nobody\n- command: \"echo incafter >> ROOT/log\"\n"
     main = "#!/usr/bin/env rash\n- include: ROOT/inc.rh\n  ignore_errors: true\n- command: \"id -u >> ROOT/log\"\n"
